@@ -47,11 +47,14 @@ func TestVerif_C11(t *testing.T) {
 	rec.Rule = "exhaustive grid squash mode x credential x sattr3 uid/gid x {SETATTR on file/dir/symlink, CREATE x3 modes, MKDIR, SYMLINK}; distinct = (squash, caller class, procedure, sattr ids, outcome) tuples"
 	rec.Exhaustive = true
 	defer rec.Write()
-	type cred struct{ uid, gid uint32 }
-	creds := []cred{{0, 0}, {1000, 1000}, {1000, 0}, {65534, 65534}, {0, 5}}
+	type cred struct {
+		uid, gid uint32
+		none     bool // AUTH_NONE: no identity at all, always nobody
+	}
+	creds := []cred{{0, 0, false}, {1000, 1000, false}, {1000, 0, false}, {65534, 65534, false}, {0, 5, false}, {0, 0, true}}
 	idOpts := []int64{-1, -2, 0, 4242} // -1 unset, -2 caller's own
 	n := 0
-	for _, squash := range []string{"none", "root", "all"} {
+	for _, squash := range []string{"none", "root", "all", "", "Root", "ALL"} {
 		fs := refs.New()
 		fs.PlantDir("/d", 0777, 0, 0)
 		srv, err := vfNewSrv(fs, ExportOptions{Squash: squash, AttrCacheTimeout: 1})
@@ -66,6 +69,10 @@ func TestVerif_C11(t *testing.T) {
 			euid, egid, _ := vfSquash(squash, cr.uid, cr.gid, nil)
 			c := srv.client()
 			c.Cred = xdrw.AuthSys(1, "h", cr.uid, cr.gid, nil)
+			if cr.none {
+				euid, egid = 65534, 65534
+				c.Cred = xdrw.Cred{Flavor: 0}
+			}
 			for _, su := range idOpts {
 				for _, sg := range idOpts {
 					var sa xdrw.Sattr3
@@ -94,7 +101,7 @@ func TestVerif_C11(t *testing.T) {
 						n++
 						name := fmt.Sprintf("o%d", n)
 						p := "/d/" + name
-						desc := fmt.Sprintf("squash=%s cred=%d:%d effective=%d:%d sattr.uid=%d sattr.gid=%d proc=%s", squash, cr.uid, cr.gid, euid, egid, su, sg, proc)
+						desc := fmt.Sprintf("squash=%q cred=%d:%d(auth_none=%v) effective=%d:%d sattr.uid=%d sattr.gid=%d proc=%s", squash, cr.uid, cr.gid, cr.none, euid, egid, su, sg, proc)
 						var target uint64
 						if strings.HasPrefix(proc, "SETATTR") {
 							switch proc {
@@ -179,6 +186,9 @@ func TestVerif_C11(t *testing.T) {
 						if euid == 0 {
 							caller = "root"
 						}
+						if cr.none {
+							caller = "auth-none"
+						}
 						rec.Distinct(fmt.Sprintf("%s|%s|%s|uid=%d gid=%d|st=%d", squash, caller, proc, su, sg, st))
 					}
 				}
@@ -186,5 +196,5 @@ func TestVerif_C11(t *testing.T) {
 		}
 		srv.Close()
 	}
-	rec.Sample(map[string]any{"grid": "3 squash modes x 5 credentials x 4x4 sattr ids x 8 procedures", "cases": n})
+	rec.Sample(map[string]any{"grid": "6 squash spellings x 6 credentials (incl. AUTH_NONE) x 4x4 sattr ids x 8 procedures", "cases": n})
 }
